@@ -11,7 +11,7 @@ Record layout := {
   y_fds : list (string * lcls);      (* descriptor table of a live process: entry, class of the link target *)
   y_tasks : list string;             (* /proc/<pid>/task of a live process *)
   y_pids : list string;              (* /proc listing while the process is there (sorted) *)
-  y_children : list string;          (* pids whose stat names the process as parent *)
+  y_kids : list (string * list string);  (* pid -> the pids whose stat names it as parent (listing order) *)
   y_zombies : list string;           (* other pids that are zombies *)
   y_race_fd : string; y_race_task : string;   (* kind 3: this descriptor / thread is gone when looked at *)
   y_del_fd : string;                 (* kind 0: this descriptor's target, the exe and the cwd end in " (deleted)" *)
@@ -24,16 +24,16 @@ Fixpoint link_of (t : list (string * lcls)) (n : string) : lcls :=
   match t with [] => LOtherLink | (m, c) :: r => if String.eqb n m then c else link_of r n end.
 Definition mem (n : string) (l : list string) := existsb (String.eqb n) l.
 
-Definition base (y : layout) (kind : nat) (g : bool) (k : akind) (x : who) (f : fid) (cur : string) : res :=
+Definition base (y : layout) (kind : nat) (gf : string -> bool) (k : akind) (x : who) (f : fid) (cur : string) : res :=
   let live := match kind with 0%nat | 3%nat => true | _ => false end in
   let zomb := Nat.eqb kind 2 in
   let race := Nat.eqb kind 3 in
   match x with
   | Self =>
       match f, k with
-      | FStat, KRead => Ok (dat false zomb [] LOtherLink)
+      | FStat, KRead | FStatE, KRead => Ok (dat false zomb [] LOtherLink)
       | FSmaps, KRead => Ok (dat (negb live) false (if Nat.eqb kind 0 then y_maps_del y else []) LOtherLink)
-      | FCmdline, KRead | FEnviron, KRead => Ok (dat (negb live) false [] LOtherLink)
+      | FCmdline, KRead | FCmdlineE, KRead | FEnviron, KRead => Ok (dat (negb live) false [] LOtherLink)
       | FExe, KReadlink => if live then Ok (dat false false [] (if Nat.eqb kind 0 then LDel else LAbsOther)) else Err ENOENT
       | FCwd, KReadlink => if zomb then Err ENOENT else Ok (dat false false [] (if Nat.eqb kind 0 then LDel else LAbsOther))
       | FFdDir, KListdir => if zomb then Err EACCES else Ok (dat false false (if live then map fst (y_fds y) else []) LOtherLink)
@@ -47,24 +47,35 @@ Definition base (y : layout) (kind : nat) (g : bool) (k : akind) (x : who) (f : 
       | _, _ => Ok data0
       end
   | Other =>
-      match f, k with
-      | FExeDel, _ | FCwdDel, _ | FTargetDelE, _ | FMapPathE, _ => Err ENOENT      (* nothing at "<path> (deleted)" *)
-      | _, KRead => Ok (dat false (mem cur (y_zombies y)) [] LOtherLink)
-      | _, _ => Ok data0
+      match k with
+      | KRead => Ok (dat false (mem cur (y_zombies y)) [] LOtherLink)
+      | _ => Ok data0
+      end
+  | Ext =>
+      match f with
+      | FExeDel | FCwdDel | FTargetDelE | FMapPathE => Err ENOENT      (* nothing at "<path> (deleted)" *)
+      | _ => Ok data0
       end
   | _ =>
       match f, k with
       | FDevDir, KListdir => Ok (dat false false (y_devs y) LOtherLink)
-      | FRoot, KListdir => Ok (dat false false (if g then filter (fun n => negb (String.eqb n (y_self y))) (y_pids y) else y_pids y) LOtherLink)
+      | FRoot, KListdir => Ok (dat false false (filter (fun n => negb (gf n)) (y_pids y)) LOtherLink)
       | _, _ => Ok data0
       end
   end.
 
-Definition mk_world (y : layout) (kind : nat) (v : option nat) (denied : list nat) (longname guess : bool) : world :=
+Fixpoint assoc {A} (d : A) (t : list (string * A)) (n : string) : A :=
+  match t with [] => d | (m, c) :: r => if String.eqb n m then c else assoc d r n end.
+(* [ov]: other processes that vanish, with the access index *)
+Definition mk_world (y : layout) (kind : nat) (v : option nat) (denied : list nat) (ov : list (string * nat))
+                    (longname guess : bool) : world :=
   {| w_base := base y kind; w_self := y_self y; w_vanish := v;
      w_deny := fun i => existsb (Nat.eqb i) denied;
+     w_ovanish := fun p => assoc None (map (fun e => (fst e, Some (snd e))) ov) p;
      w_param := fun n => match n with 0%nat => guess | 1%nat => longname | _ => false end;
-     w_names := fun _ => y_children y |}.
+     w_pcur := fun n cur => match n with 1%nat => longname && String.eqb cur (y_self y) | _ => false end;
+     w_parent := y_parent y;
+     w_kids := assoc [] (y_kids y) |}.
 
 (* ---- rendering *)
 Definition kind_name (k : akind) : string :=
@@ -81,8 +92,7 @@ Definition render (y : layout) (f : fid) (cur : string) : string :=
   | FFdDir => sub "fd" | FFdE => sub ("fd/" +++ cur) | FFdinfoE => sub ("fdinfo/" +++ cur)
   | FSysPrio => sub "@getpriority" | FSysIoprio => sub "@proc_ioprio_get"
   | FSysAffinity => sub "@proc_cpu_affinity_get" | FSysRlimit => sub "@prlimit"
-  | FParentStat => y_parent y +++ "/stat"
-  | FStatE => cur +++ "/stat"
+  | FStatE => cur +++ "/stat" | FCmdlineE => cur +++ "/cmdline" | FSysKill => sub "@kill"
   | FRoot => "" | FNetTcp => "net/tcp" | FNetTcp6 => "net/tcp6" | FNetUdp => "net/udp"
   | FNetUdp6 => "net/udp6" | FNetUnix => "net/unix"
   (* outside procfs: "^" = the directory of the fake world's ordinary files *)
@@ -94,7 +104,7 @@ Definition render (y : layout) (f : fid) (cur : string) : string :=
 Definition jv_access (y : layout) (e : akind * fid * string) : jv :=
   let '(k, f, cur) := e in JC (kind_name k +++ "|" +++ render y f cur) [].
 Definition who_name (x : who) : string :=
-  match x with Self => "self" | Other => "other" | Global => "global" | Any => "any" end.
+  match x with Self => "self" | Other => "other" | Global => "global" | Any => "any" | Ext => "ext" end.
 Definition jv_result (r : result) : jv :=
   match r with
   | RVal => JC "Val" []
@@ -107,6 +117,7 @@ Definition jv_result (r : result) : jv :=
       | XNSP x => JC "Exc" [JC "NoSuchProcess" []; JC (who_name x) []]
       | XZombie x => JC "Exc" [JC "ZombieProcess" []; JC (who_name x) []]
       | XAD x => JC "Exc" [JC "AccessDenied" []; JC (who_name x) []]
+      | XTimeout => JC "Exc" [JC "TimeoutExpired" []; JC "self" []]
       | XPy => JC "Exc" [JC "PythonError" []; jnone]
       end
   end.
@@ -114,7 +125,7 @@ Definition jv_result (r : result) : jv :=
 (* one call of script [p] on a fresh Process object in the given world:
    [outcome; access log; gone at the end?; outcome allowed by the property?] *)
 Definition run_case (y : layout) (p : prog) (kind : nat) (v : option nat) (denied : list nat)
-                    (longname guess : bool) : jv :=
-  let w := mk_world y kind v denied longname guess in
+                    (ov : list (string * nat)) (longname guess : bool) : jv :=
+  let w := mk_world y kind v denied ov longname guess in
   let '(r, s) := run w p st0 in
   JL [ jv_result r; JL (map (jv_access y) (rev (s_log s))); jbool (gone w s); jbool (allowedb r (gone w s)) ].
